@@ -267,7 +267,8 @@ CHECKS["C02"] = {
              "max_refine_iterations {0,1,5} x use_refined_invariants + intra_checker. SAFE => no explored execution reaches the assertion with a "
              "false condition; UNREACHABLE => no explored execution reaches it. Warnings are never judged. Job 3: n<=2 blocks with the 29-statement alphabet (division, remainder, bitwise, "
              "multiplication, both select forms, unreachable, ...) and every two-statement block (statement; assertion). Job 4: the C09 call-graph space with an "
-             "assertion in main: verdicts of the checker interleaved with the top-down inter-procedural analysis (every parameter tuple) and of "
+             "assertion in main and one in the callee f (checked once per calling context: a location counts as SAFE / UNREACHABLE only if no recorded "
+             "verdict is a warning or error): verdicts of the checker interleaved with the top-down inter-procedural analysis (every parameter tuple) and of "
              "inter_checker on the bottom-up analyzer (every domain pair) against the tabulated concrete oracle."),
     "assumptions": _E2_ASSUME,
     "level_text": "Complete enumeration of the stated program space with an explicit-state oracle for 'violated' and 'reached'.",
